@@ -32,25 +32,41 @@ FILES = [
 ]
 SWEEP_EXTRA = True
 FLAGS = (("self._is_min", "min"), ("is_min", "min"), ("self.is_min", "min"))
-EVEN_OFFSETS = ("epsilon", "eps", "self.epsilon", "tol")
+
+
+def _even_offsets(f):
+    """mode-independent tolerances of f: `self.<attr>` and locals all of whose definitions are constants or `self.<attr>`
+    (a metric value comes from a result / rung entry, never from a scheduler attribute)."""
+    from ..engine import local_defs
+    out = set()
+    if f is None:
+        return out
+    names = {x.id for x in walk_shallow(f.node) if isinstance(x, ast.Name) and isinstance(x.ctx, ast.Store)}
+    for nm in names:
+        ds = local_defs(f, nm)
+        if ds and all(not isinstance(d, tuple) and (isinstance(d, ast.Constant) or (
+                isinstance(d, ast.Attribute) and isinstance(d.value, ast.Name) and d.value.id == "self")) for d in ds):
+            out.add(nm)
+    return out
 
 
 def odd(s):
     return True
 
 
-def _dual_arms(amin, amax):
-    return parity.arms_are_dual(amin, amax, odd=odd) or _dual_even_offset(amin, amax)
+def _dual_arms(amin, amax, f=None):
+    return parity.arms_are_dual(amin, amax, odd=odd) or _dual_even_offset(amin, amax, _even_offsets(f))
 
 
-def _dual_even_offset(amin, amax):
+def _dual_even_offset(amin, amax, evens=()):
     """dual with `x + epsilon` <-> `x - epsilon` for a named (mode-independent) tolerance."""
     import copy
 
     class T(ast.NodeTransformer):
         def visit_BinOp(self, n):
             n = self.generic_visit(n)
-            if isinstance(n.op, (ast.Add, ast.Sub)) and U(n.right) in EVEN_OFFSETS:
+            if isinstance(n.op, (ast.Add, ast.Sub)) and (U(n.right) in evens or (
+                    isinstance(n.right, ast.Attribute) and isinstance(n.right.value, ast.Name) and n.right.value.id == "self")):
                 n.op = ast.Sub() if isinstance(n.op, ast.Add) else ast.Add()
             return n
     a2 = [T().visit(copy.deepcopy(x)) for x in (amin if isinstance(amin, list) else [amin])]
@@ -133,8 +149,10 @@ def classify(ctx, f, node):
         tgt = U(par.targets[0])
         if tgt.endswith("is_min"):
             return "flag", m == "min", f"{tgt} = (mode == 'min')"
-        if "reverse" in tgt:
-            uses = [x for x in walk_shallow(f.node) if isinstance(x, ast.keyword) and x.arg == "reverse" and U(x.value) == tgt]
+        loads = [x for x in walk_shallow(f.node, include_lambda=True) if isinstance(x, ast.Name) and isinstance(x.ctx, ast.Load) and x.id == tgt]
+        uses = [x for x in walk_shallow(f.node) if isinstance(x, ast.keyword) and x.arg == "reverse" and U(x.value) == tgt]
+        if isinstance(par.targets[0], ast.Name) and loads and len(loads) == len(uses):
+            # a local whose only uses are `reverse=<it>` of a sort
             return "reverse-flag", m == "max" and bool(uses), f"{tgt} = (mode == 'max'), used as reverse= in {len(uses)} sort(s)"
         return None, False, f"mode test assigned to `{tgt}`"
     if isinstance(par, ast.keyword) and par.arg == "reverse":
@@ -157,7 +175,7 @@ def classify(ctx, f, node):
             return "q/1-q", True, U(par)
         if U(amin).replace(" ", "") == f"1-{U(amax)}".replace(" ", ""):
             return "q/1-q", True, U(par)
-        return "dual-arms", _dual_arms(amin, amax), U(par)[:90]
+        return "dual-arms", _dual_arms(amin, amax, f), U(par)[:90]
     if isinstance(par, ast.BinOp):
         # 1 - 2 * (mode == "min") and relatives: find the enclosing arithmetic expression
         top = par
@@ -190,7 +208,7 @@ def classify(ctx, f, node):
         if _neg_consts_equal(amin[0] if len(amin) == 1 else ast.Module(body=amin, type_ignores=[]),
                              amax[0] if len(amax) == 1 else ast.Module(body=amax, type_ignores=[])):
             return "SIGN", True, "arms differ by the sign of their constants"
-        return "dual-arms", _dual_arms(amin, amax), (U(par.test) + ": " + U(amin[0]).split("\n")[0][:60])
+        return "dual-arms", _dual_arms(amin, amax, f), (U(par.test) + ": " + U(amin[0]).split("\n")[0][:60])
     if isinstance(par, ast.ListComp):
         return "mode-vector", True, U(par)
     if isinstance(par, (ast.Assert, ast.BoolOp, ast.Call)) or isinstance(par, ast.Compare):
@@ -269,19 +287,34 @@ def run(ctx, rep, tier="quick"):
     P = ctx.P
     r = P.method("Rung", "__init__")
     keys = [x for x in walk_shallow(r.node) if isinstance(x, ast.Call) and fn_name(x) == "SortedList"]
-    ok = len(keys) == 1 and U(kwarg(keys[0], "key")).replace(" ", "") == "lambdax:sign*x.metric_val"
+    ok = len(keys) == 1 and isinstance(kwarg(keys[0], "key"), ast.Lambda)
+    if ok:
+        lam = kwarg(keys[0], "key")
+        b, a0 = lam.body, lam.args.args[0].arg
+        sg = [x for x in (b.left, b.right) if isinstance(x, ast.Name)] if isinstance(b, ast.BinOp) and isinstance(b.op, ast.Mult) else []
+        ok = len(sg) == 1 and U(b.right if sg[0] is b.left else b.left) == f"{a0}.metric_val"
+        if ok:
+            from ..engine import local_defs
+            ds = [d for d in local_defs(r, sg[0].id) if not isinstance(d, tuple)]
+            ok = len(ds) == 1 and parity.is_sign(ds[0], FLAGS) == 1
     rep.put(ok, "S2", "parity", "Rung.__init__: SortedList keyed by sign * metric (NORM: best first in both modes)", r, keys[0] if keys else None, "")
     d = P.method("DifferentialEvolutionHyperbandScheduler", "_selection")
-    cmpn = [x for x in walk_shallow(d.node) if isinstance(x, ast.Compare) and "metric_sign" in U(x)]
-    ok = len(cmpn) == 1 and U(cmpn[0]).replace(" ", "") == "metric_sign*(metric_val-target_metric_val)>=0"
+    from ..engine import local_defs, vars_assigned_from
+    sgv = vars_assigned_from(d, lambda v: parity.is_sign(v, FLAGS) == 1)
+    tmv = vars_assigned_from(d, lambda v: isinstance(v, ast.Attribute) and v.attr == "metric_val")
+    cmpn = [x for x in walk_shallow(d.node) if isinstance(x, ast.Compare) and any(isinstance(y, ast.Name) and y.id in sgv for y in ast.walk(x))]
+    ok = len(cmpn) == 1 and len(sgv) == 1 and len(tmv) == 1 and \
+        U(cmpn[0]).replace(" ", "") == f"{sgv[0]}*(metric_val-{tmv[0]})>=0"
     rep.put(ok, "S2", "parity", "DEHB._selection: sign * (new - target) >= 0 keeps the target (NORM comparison)", d, cmpn[0] if cmpn else None, "")
     q = P.method("PopulationBasedTraining", "_quantiles")
     srt = [x for x in walk_shallow(q.node) if isinstance(x, ast.Call) and fn_name(x) == "sort"]
     ok = len(srt) == 1 and "last_score" in U(kwarg(srt[0], "key")) and kwarg(srt[0], "reverse") is None
     rep.put(ok, "S2", "parity", "PBT._quantiles: sorted by the signed score (NORM), lower quantile first", q, srt[0] if srt else None, "")
     t = P.method("Tuner", "best_config")
-    ok = any(isinstance(x, ast.Call) and fn_name(x) == "metric_name_mode" for x in walk_shallow(t.node)) and \
-        any(isinstance(x, ast.Call) and fn_name(x) == "print_best_metric_found" and U(kwarg(x, "mode")) == "metric_mode" for x in walk_shallow(t.node))
+    from ..engine import var_from_call
+    mmv = var_from_call(t, "metric_name_mode", 1)
+    ok = mmv is not None and \
+        any(isinstance(x, ast.Call) and fn_name(x) == "print_best_metric_found" and U(kwarg(x, "mode")) == mmv for x in walk_shallow(t.node))
     rep.put(ok, "S2", "parity", "Tuner.best_config resolves name and mode together and passes that mode on", t, None, "")
 
 
